@@ -90,8 +90,13 @@ def main():
     known_hits = {}
     ntriv = set()
     dist = {}
+    covered = [0, 0]
     for sid, _ in items:
         v = hl.parse_verdict(vals.get(sid))
+        cv = hl.parse_covered(vals.get(sid))
+        if cv is not None:
+            covered[0] += 1
+            covered[1] += int(cv)
         s = byid[sid]
         for k in P.classify(s, res[sid]):
             dist[k] = dist.get(k, 0) + 1
@@ -166,6 +171,8 @@ def main():
             "strict_trace_equal": len(items) - len(strict_fail) - len(proj_fail) - len(mon_fail) - len(unparsed),
             "projection_mismatches": len(proj_fail), "monitor_failures_on_impl": len(mon_fail),
             "known_finding_hits": {k: len(v) for k, v in known_hits.items()},
+            "scenarios_meeting_whole_history_theorem_hypotheses": (f"{covered[1]} of {covered[0]} sequential scenarios "
+                                                                   "(wf_histb evaluated in Coq)") if covered[0] else "n/a",
             "framework_errors": len(framework), "exhaustive": bool(getattr(P, "EXHAUSTIVE", {}).get(tier, False)),
         },
         "assumptions": P.ASSUMPTIONS, "wall_s": round(time.time() - t0, 1), "violations": violations,
